@@ -451,7 +451,7 @@ pub fn fdt_hits_known(c: &Case, known: &dyn Fn(&str) -> bool) -> bool {
 }
 
 pub fn case_strategy(tier: Tier) -> BoxedStrategy<Case> {
-    let oo = gen::ObjOpts { max_size: tier.pick(4000, 40_000), allow_stream: false, rich_meta: false, ..Default::default() };
+    let oo = gen::ObjOpts { max_size: tier.pick(4000, 40_000), allow_stream: true, rich_meta: false, ..Default::default() };
     let so = gen::SenderOpts::default();
     (
         gen::session_strategy(so, oo, 2),
